@@ -35,3 +35,18 @@ Definition klass_name (k : klass) : string :=
   | IdempotentConst => "IdempotentConst" | PureCache => "PureCache" | RestoredInFinally => "RestoredInFinally"
   | WriteBeforeRead => "WriteBeforeRead" | FreshObject => "FreshObject" | NotInParse => "NotInParse" | Leak => "Leak"
   end.
+
+(* ------------------------------------------------------------------ renderer state (source translation, round 3) *)
+(* value of an instance attribute: assigned by the current construction / setup_render, or whatever an earlier render left *)
+Inductive aval := Fresh | Stale.
+Definition rstate := string -> aval.
+Definition assign (st : rstate) (a : string) : rstate := fun x => if String.eqb x a then Fresh else st x.
+Definition is_fresh (v : aval) : bool := match v with Fresh => true | Stale => false end.
+
+(* merge_file_level, as a sequence of steps on named objects *)
+Inductive mstep :=
+| MBindCopy (v p : string)    (* v = p.copy() *)
+| MBindAlias (v p : string)   (* v = p          (same object) *)
+| MBindFresh (v : string)     (* v = <new object> *)
+| MWrite (v : string)         (* setattr(v, ...), v.attr = ..., v[...] = ..., v.mutator(...) *)
+| MReturn (v : string).
